@@ -30,7 +30,7 @@ CLAIMED = {
             "Facts/rules compared as multisets per block; independent codec trusted.", "4/C07"),
     "C08": ("rapid operation histories (state-machine style) over a family of tokens, builders and blocks sharing ancestors; per-token model and birth snapshot, invariant after every step",
             "After every operation every live token must still show its birth observations (String, Code, Serialize, RevocationIds, reloaded String, panel outcomes) and every new token must decode, independently, to exactly what its own callers supplied.",
-            "A block is appended only to the token whose CreateBlock made it; Build once per builder.", "4/C08"),
+            "A block is appended only to the token whose CreateBlock made it. Builders are used again after Build; what a second Build holds may be everything added so far or what was added since the previous Build. One known finding (KNOWN_FINDINGS.txt, key blockbuilder-reuse: a BlockBuilder used again after Build) is reproduced by a corpus case (KNOWN-FINDING line, exit 0) and stepped around in the search.", "4/C08"),
     "C09": ("rapid goal-directed token + sealed twin + authorizer panel + 11 sealed-envelope mutations; metamorphic equality and reference chain walk",
             "Sealed token (and its reload) must verify under the same root, give the same outcome and query answers as the unsealed token for every panel member, keep its revocation ids, refuse Append and Seal; every tampered sealed envelope must be rejected in agreement with the reference.",
             "crypto/ed25519 trusted.", "4/C09"),
@@ -48,10 +48,10 @@ CLAIMED = {
             "Compares two executions of the library; verdict correctness itself is C04's subject.", "4/C13"),
     "C14": ("rapid grammar-directed texts with random layout and explicit parenthesisation vs independently computed structure; must-error texts; token-level corruptions and native text fuzzing for panics on parse and on first use",
             "For every generated text of the documented grammar (six entry points) the parsed facts / rules / checks / policies must equal the structure the generator computed itself (own postfix emission, grouping markers, parameter substitution, dates as instants); texts the property lists as errors must be rejected; no text may make a parse function, or the first use of a parsed element, panic.",
-            "Identifiers avoid the prefixes the lexer reserves; canonical decimal integers; strings without quote/backslash; time.Parse(RFC3339) shared.", "4/C14"),
+            "Identifiers avoid the prefixes the lexer reserves (prefix, suffix, matches, length, contains, true, false, hex:); canonical decimal integers; strings without quote/backslash (line breaks allowed); time.Parse(RFC3339) shared.", "4/C14"),
     "C15": ("rapid grammar-generated blocks in the printable domain placed at every block position; print -> split -> parse = original parse (round trip through printer and parser)",
             "The text the library prints for the block (Code() for later blocks, the authority section of String() for position 0) must parse back, element by element, to exactly the structure of the original parse; String() and Code() must be identical before and after serialization and never panic.",
-            "Printable domain as named by the property; Code() layout (one element per line) is relied on for splitting.", "4/C15"),
+            "Printable domain as named by the property, without line breaks inside strings; Code() layout (one element per line outside string literals) is relied on for splitting.", "4/C15"),
     "C16": ("rapid ids x derivation histories x key maps and defaults; id preserved along the history (API and independent wire reader); lookup model",
             "RootKeyID and the serialized identifier must equal the creation identifier after every append / seal / reload; AuthorizerFor(WithRootPublicKeys) must succeed iff the model projection selects the real root key, fail with ErrNoPublicKeyAvailable iff it selects nothing, and fail otherwise when it selects a wrong key.",
             "Independent wire reader trusted.", "4/C16"),
